@@ -345,20 +345,14 @@ let run_stream (id : string) (fields : string list) (body : string) =
   let did = ns (get "did") and idx = int_of_string (get "idx") in
   let payload = match split_ws body with ["P"; d] -> expand_pieces d | _ -> failwith "bad stream body" in
   digest_skip := header_size;
-  let n = String.length payload in
-  let rec blocks off acc total =
-    if off >= n then (List.rev acc, total) else
-      let l = min bs (n - off) in
-      let b = String.sub payload off l in
-      blocks (off + l) ((b ^ be32_s (crc32 b)) :: acc) (total + l + 4) in
-  let (bl, total) = blocks 0 [] 0 in
-  let datas = bl @ [le64_s total ^ magic] in
-  let datas = match datas with d :: r -> (synthetic_header () ^ d) :: r | [] -> [] in
   let name = Printf.sprintf "snapshot-%016X.gbsnap" idx in
   let msg = { m_shard = ns (get "sh"); m_to = ns (get "rp"); m_from = ns (get "from"); m_index = ns (get "idx");
               m_term = ns (get "term"); m_odi = ns (get "odi"); m_path = bytes_of_hex (hex_of_string name);
               m_fsize = N0; m_files = []; m_witness = false } in
-  let chunks = stream_chunks "" dlen msg did datas in
+  (* the model cuts the payload into blocks; the checksum bytes, the header and the tail are
+     supplied here (CRC-32 big endian; a header the validator accepts; total | magic) *)
+  let chunks = stream_snapshot "" dapp dlen dsub (fun b -> be32_s (crc32 b)) (synthetic_header ())
+                 (fun total -> le64_s (int_of_n total) ^ magic) (n_of_int bs) msg did payload in
   let real = (bs = block_size) in
   let va = if real then vadd else (fun v _ _ -> VOk v) in
   let vf = if real then vfinal else (fun _ -> true) in
